@@ -25,6 +25,7 @@ def payloads(tier):
     small += [dict(n=3, size=10, container=c, compression=None, preexisting=True) for c in ('array', 'list', 'annotated-list')]
     # the write as `gambit signatures create` does it: after a pooled signature calculation; death by os._exit and by SIGTERM
     small += [dict(n=3, size=6, container='cli', compression=None, mode='cli', kill=k) for k in ('exit', 'sigterm')]
+    small += [dict(n=3, size=6, container='cli-meta', compression=None, mode='cli', kill='exit', with_meta=True)]      # ids (-i) and metadata (-m) given
     big = [dict(n=4, size=300000, container=c, compression=comp) for c in ('array', 'annotated-list') for comp in (None, 'gzip')]
     big += [dict(n=3, size=300000, container='list', compression=None, preexisting=True)]
     if tier == 'thorough':
